@@ -235,6 +235,146 @@ func genAVPs(r *rand.Rand) *AVPs {
 	return a
 }
 
+
+// ---- generated struct layouts: the same pool of fields in every order, with embedded structs at any position --------
+// (reflect.StructOf; added after a seeded change that only showed when an embedded struct follows a tagged field)
+
+type poolField struct {
+	name, tag string
+	typ       reflect.Type
+	gen       func(r *rand.Rand) reflect.Value
+}
+
+func ptrTo(v reflect.Value) reflect.Value { p := reflect.New(v.Type()); p.Elem().Set(v); return p }
+
+var fieldPool = []poolField{
+	{"OriginHost", `avp:"Origin-Host"`, reflect.TypeOf(datatype.DiameterIdentity("")), func(r *rand.Rand) reflect.Value { return reflect.ValueOf(datatype.DiameterIdentity(genStr(r))) }},
+	{"OriginRealm", `avp:"Origin-Realm"`, reflect.TypeOf(""), func(r *rand.Rand) reflect.Value { return reflect.ValueOf(genStr(r)) }},
+	{"ResultCode", `avp:"Result-Code"`, reflect.TypeOf(uint32(0)), func(r *rand.Rand) reflect.Value { return reflect.ValueOf(gen32(r)) }},
+	{"StateID", `avp:"Origin-State-Id"`, reflect.TypeOf((*datatype.Unsigned32)(nil)), func(r *rand.Rand) reflect.Value {
+		if r.Intn(3) == 0 {
+			return reflect.Zero(reflect.TypeOf((*datatype.Unsigned32)(nil)))
+		}
+		return ptrTo(reflect.ValueOf(datatype.Unsigned32(gen32(r))))
+	}},
+	{"SubSession", `avp:"Accounting-Sub-Session-Id"`, reflect.TypeOf(uint64(0)), func(r *rand.Rand) reflect.Value { return reflect.ValueOf(gen64(r)) }},
+	{"Classes", `avp:"Class"`, reflect.TypeOf([]datatype.OctetString(nil)), func(r *rand.Rand) reflect.Value {
+		var c []datatype.OctetString
+		for i, n := 0, r.Intn(4); i < n; i++ {
+			c = append(c, datatype.OctetString(genBytes(r)))
+		}
+		return reflect.ValueOf(c)
+	}},
+	{"Session", `avp:"Session-Id,omitempty"`, reflect.TypeOf(datatype.UTF8String("")), func(r *rand.Rand) reflect.Value {
+		if r.Intn(3) == 0 {
+			return reflect.ValueOf(datatype.UTF8String(""))
+		}
+		return reflect.ValueOf(datatype.UTF8String("s" + genStr(r)))
+	}},
+	{"I32", `avp:"X-Int32"`, reflect.TypeOf(int32(0)), func(r *rand.Rand) reflect.Value { return reflect.ValueOf(int32(gen32(r))) }},
+	{"F64", `avp:"X-Float64"`, reflect.TypeOf(float64(0)), func(r *rand.Rand) reflect.Value { return reflect.ValueOf(genF64(r)) }},
+	{"ProductName", `avp:"Product-Name"`, reflect.TypeOf(""), func(r *rand.Rand) reflect.Value { return reflect.ValueOf(genStr(r)) }},
+	{"Firmware", `avp:"Firmware-Revision"`, reflect.TypeOf((*uint32)(nil)), func(r *rand.Rand) reflect.Value {
+		if r.Intn(3) == 0 {
+			return reflect.Zero(reflect.TypeOf((*uint32)(nil)))
+		}
+		return ptrTo(reflect.ValueOf(gen32(r)))
+	}},
+	{"Vendors", `avp:"Supported-Vendor-Id"`, reflect.TypeOf([]uint32(nil)), func(r *rand.Rand) reflect.Value {
+		var c []uint32
+		for i, n := 0, r.Intn(4); i < n; i++ {
+			c = append(c, gen32(r))
+		}
+		return reflect.ValueOf(c)
+	}},
+	{"Opt", `avp:"X-Inner"`, reflect.TypeOf((*Inner)(nil)), func(r *rand.Rand) reflect.Value {
+		if r.Intn(3) == 0 {
+			return reflect.Zero(reflect.TypeOf((*Inner)(nil)))
+		}
+		return reflect.ValueOf(genInner(r))
+	}},
+	{"ErrMsg", `avp:"Error-Message,omitempty"`, reflect.TypeOf(""), func(r *rand.Rand) reflect.Value {
+		if r.Intn(3) == 0 {
+			return reflect.ValueOf("")
+		}
+		return reflect.ValueOf("e" + genStr(r))
+	}},
+	{"Addrs", `avp:"Host-IP-Address"`, reflect.TypeOf([]datatype.Address(nil)), func(r *rand.Rand) reflect.Value {
+		var c []datatype.Address
+		for i, n := 0, r.Intn(3); i < n; i++ {
+			c = append(c, genAddr(r))
+		}
+		return reflect.ValueOf(c)
+	}},
+	{"Stamp", `avp:"Event-Timestamp"`, reflect.TypeOf(datatype.Time{}), func(r *rand.Rand) reflect.Value { return reflect.ValueOf(datatype.Time(genTime(r))) }},
+}
+
+// genLayout: a random subset of the pool in a random order, split over the outer struct and up to two embedded
+// (anonymous, untagged) structs placed at random positions, one of which may itself embed another.
+func genLayout(r *rand.Rand) (src interface{}, fresh func() interface{}, desc string) {
+	perm := r.Perm(len(fieldPool))
+	k := 2 + r.Intn(len(perm)-1)
+	perm = perm[:k]
+	nEmb := r.Intn(3)
+	// assign each chosen field to the outer struct (0) or to embedded struct 1..nEmb
+	groups := make([][]int, nEmb+1)
+	for _, p := range perm {
+		g := r.Intn(nEmb + 1)
+		groups[g] = append(groups[g], p)
+	}
+	mk := func(idx []int, embedded []reflect.Type, embedAt []int) reflect.Type {
+		var fs []reflect.StructField
+		for i, p := range idx {
+			for j, at := range embedAt {
+				if at == i {
+					fs = append(fs, reflect.StructField{Name: fmt.Sprintf("Emb%d", j+1), Type: embedded[j], Anonymous: true})
+				}
+			}
+			f := fieldPool[p]
+			fs = append(fs, reflect.StructField{Name: f.name, Type: f.typ, Tag: reflect.StructTag(f.tag)})
+		}
+		for j, at := range embedAt {
+			if at >= len(idx) {
+				fs = append(fs, reflect.StructField{Name: fmt.Sprintf("Emb%d", j+1), Type: embedded[j], Anonymous: true})
+			}
+		}
+		return reflect.StructOf(fs)
+	}
+	var embTypes []reflect.Type
+	var embAt []int
+	for g := 1; g <= nEmb; g++ {
+		embTypes = append(embTypes, mk(groups[g], nil, nil))
+		embAt = append(embAt, r.Intn(len(groups[0])+1))
+	}
+	t := mk(groups[0], embTypes, embAt)
+	v := reflect.New(t)
+	var fill func(sv reflect.Value)
+	fill = func(sv reflect.Value) {
+		for i := 0; i < sv.NumField(); i++ {
+			sf := sv.Type().Field(i)
+			if sf.Anonymous {
+				fill(sv.Field(i))
+				continue
+			}
+			for _, f := range fieldPool {
+				if f.name == sf.Name {
+					sv.Field(i).Set(f.gen(r))
+				}
+			}
+		}
+	}
+	fill(v.Elem())
+	var names []string
+	for i := 0; i < t.NumField(); i++ {
+		if t.Field(i).Anonymous {
+			names = append(names, fmt.Sprintf("<embedded %d fields>", t.Field(i).Type.NumField()))
+		} else {
+			names = append(names, t.Field(i).Name)
+		}
+	}
+	return v.Interface(), func() interface{} { return reflect.New(t).Interface() }, strings.Join(names, ",")
+}
+
 // ---- comparison: canonical text of a value (floats by bit pattern, times to the second, nil == empty slice) -----
 
 func canon(v reflect.Value, b *strings.Builder) {
@@ -454,12 +594,16 @@ func main() {
 		}
 		run("Shapes", i, genShapes(r), func() interface{} { return &Shapes{} })
 		run("AVPs", i, genAVPs(r), func() interface{} { return &AVPs{} })
+		for k := 0; k < 3; k++ {
+			src, fresh, _ := genLayout(r)
+			run("Layout", i, src, fresh)
+		}
 	}
 	ev := map[string]interface{}{
 		"property_id": "C18", "tier": *tier, "seed": *seed, "level": "exploration", "wall_s": time.Since(t0).Seconds(), "violations": len(fails),
 		"coverage": map[string]interface{}{
 			"evaluations": evals, "distinct_nontrivial": len(distinct),
-			"rule": "BOUNDED stand-in, not a proof: three struct types (Scalars: one field per data type incl. native Go scalars; Shapes: embedded struct, []T, []datatype, *T, nested group, anonymous group struct, []*struct up to 3 elements, *struct, omitempty; AVPs: *AVP, []*AVP, AVP) x generated values (zero values, corner values of every width, NaN / infinities / denormals, empty and odd-length strings, times on both sides of the 2036 era boundary, IPv4 and IPv6 addresses); each case is marshalled, unmarshalled directly and after Serialize+ReadMessage, compared by a canonical text (floats by bit pattern, times to the second, nil == empty slice); for Scalars the AVPs are also compared with the dictionary (code, vendor id, M/V flags, type); each message is also re-read with its grouped AVPs relabelled as an unknown vendor's (opaque data) and unmarshalled, which must not panic. A case is distinct by its canonical text; every generated case is non-trivial in that all fields are set from the generator.",
+			"rule": "BOUNDED stand-in, not a proof: three struct types and a generated family (Layout: a random subset of a pool of 16 tagged fields in random order, split over the outer struct and up to two anonymous embedded structs placed at random positions, built with reflect.StructOf, three per round; Scalars: one field per data type incl. native Go scalars; Shapes: embedded struct, []T, []datatype, *T, nested group, anonymous group struct, []*struct up to 3 elements, *struct, omitempty; AVPs: *AVP, []*AVP, AVP) x generated values (zero values, corner values of every width, NaN / infinities / denormals, empty and odd-length strings, times on both sides of the 2036 era boundary, IPv4 and IPv6 addresses); each case is marshalled, unmarshalled directly and after Serialize+ReadMessage, compared by a canonical text (floats by bit pattern, times to the second, nil == empty slice); for Scalars the AVPs are also compared with the dictionary (code, vendor id, M/V flags, type); each message is also re-read with its grouped AVPs relabelled as an unknown vendor's (opaque data) and unmarshalled, which must not panic. A case is distinct by its canonical text; every generated case is non-trivial in that all fields are set from the generator.",
 			"samples": samples, "exhaustive": false,
 		},
 		"assumptions": []string{"bounded exploration only: " + fmt.Sprint(*n) + " random cases per struct type from the seed, slices of at most 3 elements, group nesting depth 2; reflect.go is NOT verified", "the base dictionary plus one generated dictionary (ten AVPs covering the data types the base lacks)"},
